@@ -89,13 +89,28 @@ def _render_control(i, rec, c):
   import pyglove as pg          # pylint: disable=import-outside-toplevel
   from pgverif import htmldoc   # pylint: disable=import-outside-toplevel
   b = htmldoc.Builder(c, taint_class_name=False)
-  v, expect = htmldoc.build_control(rec, b)
+  d = htmldoc.control_desc(rec, b)
+  ctl = htmldoc.construct_control(d)
+  v = htmldoc.wrap_control(ctl, rec['wrap'])
+  upd = rec.get('upd', 0)
+  first = None
+  if upd == 2:
+    first = pg.to_html_str(v)                      # rendered once before it is updated
+  if upd:
+    htmldoc.update_control(ctl, d)
   before = htmldoc.snapshot(v)
   doc = pg.to_html_str(v)
   after = htmldoc.snapshot(v)
+  stale = None
+  if upd:
+    # the control constructed directly with the fields the updated control now holds
+    fresh = pg.to_html_str(htmldoc.wrap_control(htmldoc.construct_control(d['final']), rec['wrap']))
+    if htmldoc.normalize_ids(fresh) != htmldoc.normalize_ids(doc):
+      stale = {'after_update': htmldoc.normalize_ids(doc)[-1500:], 'constructed': htmldoc.normalize_ids(fresh)[-1500:]}
   evs, texts = htmldoc.events(doc, b.data)
   return dict(i=i, b=b, v=v, kw={}, excl=None, doc=doc, evs=evs, texts=texts, modified=before != after,
-              shape=rec, opts={'control': rec['ctl']}, expect=expect)
+              shape=rec, opts={'control': rec['ctl'], 'upd': upd}, expect=htmldoc.expected_texts(d['final']),
+              stale=stale, first_rendered=first is not None)
 
 
 def _judge(chk, cases, r):
@@ -114,6 +129,12 @@ def _judge(chk, cases, r):
               'kwargs': {k: repr(v) for k, v in cs['kw'].items()}}
     if cs['modified']:
       chk.violation({'clause': 'mutation'}, dict(detail, what='the value was changed by rendering'))
+    if cs['opts'].get('upd'):
+      chk.count('control_documents_after_update_api')
+      if cs.get('stale'):
+        chk.violation({'clause': 'update_history', 'control': cs['shape']['ctl'], 'upd': cs['shape']['upd']},
+                      dict(detail, what='the rendering after the update API differs from the rendering of a control '
+                                        'constructed with the same fields', **cs['stale']))
     if cs.get('history'):
       chk.count('documents_rendered_after_a_failed_rendering')
       for f, e in zip(cs['history'], cs['fault_ends']):
@@ -210,6 +231,7 @@ def run(chk):
     raise tlc.TLCError(f'HtmlDoc trace validation (controls) failed: {r.violated}\n' + r.out[-2000:])
   _judge(chk, cases, r)
   chk.count('control_documents', len(cases))
+  chk.require(chk.counters.get('control_documents_after_update_api', 0) > 50, 'vacuous: no control update histories')
   chk.notes['controls'] = {'records': len(ctls), 'kinds': sorted({c['ctl'] for c in ctls})}
   chk.require(len(cases) == len(ctls) or chk.violations or chk.known_hits, 'controls could not be rendered')
   # self-test of the automaton + tokenizer: hand-made bad documents must be rejected, a good one accepted
